@@ -18,6 +18,8 @@ CLIENT_FILES = ["replay/client/zz_verif_drivers_test.go"]
 WALLET_FILES = ["replay/wallet/zz_verif_drivers_test.go"]
 
 DRIVERS = [
+    (r"mint\.Mint\)\.(GetMeltQuoteState|settleProofs)$", r"rg:guarantee:.*@lockedorspent", "mint", MINT_FILES, "TestVerifReplay_SwapDuringMelt", None),
+    (r"mint\.Mint\)\.checkInvoicePaid$", r"rg:(pre|guarantee):storage\.MintDB\.UpdateMintQuoteState", "mint", MINT_FILES, "TestVerifReplay_WatcherWritesAfterIssue", None),
     (r"mint\.Mint\)\.(Swap|MeltTokens)$", r"rg:guarantee:.*@lockedorspent", "mint", MINT_FILES, "TestVerifReplay_SwapDuringMelt", None),
     (r"mint\.Mint\)\.MintTokens$", r"rg:(pre|guarantee):storage\.MintDB\.UpdateMintQuoteState", "mint", MINT_FILES, "TestVerifReplay_ConcurrentMint", None),
     (r"mint\.Mint\)\.GetMintQuoteState$", r"rg:(pre|guarantee):storage\.MintDB\.UpdateMintQuoteState", "mint", MINT_FILES, "TestVerifReplay_PollOverwritesIssued", None),
